@@ -119,6 +119,24 @@ Definition cos_ge_Q (n da db thr : Q) : bool :=
        then Qle_bool 0 n || Qle_bool (n * n) (thr * thr * p)
        else Qle_bool 0 n && Qle_bool (thr * thr * p) (n * n).
 
+(* ------------------------------------------------------------------ a concrete pop *)
+(* removes the first entry of minimal priority (the same choice as Search.pq_min).  Used to EXECUTE the model;
+   the theorems hold for every pop that removes one entry, and the correspondence stream compares the route list
+   only when no two queue entries have equal priority, where every minimal pop is this one. *)
+Section Pop.
+  Context {C : Type}.
+  Variable clt : C -> C -> bool.
+  Fixpoint pop_min (q : list (nat * C)) : option (nat * C * list (nat * C)) :=
+    match q with
+    | [] => None
+    | (v, c) :: r =>
+        match pop_min r with
+        | None => Some (v, c, [])
+        | Some (v', c', r') => if clt c' c then Some (v', c', (v, c) :: r') else Some (v, c, r)
+        end
+    end.
+End Pop.
+
 (* ------------------------------------------------------------------ the two drivers *)
 Section KSP.
   Context {C St : Type}.
